@@ -34,6 +34,10 @@ def check(ctx):
                "the search starts at the resource's nearest availability on/after the release date and steps exactly +1 day")
     ctx.guarded(o, lambda o: sched_dep.search_monotone(ctx, o, S))
 
+    # the schedulers start their search at IResource.get_nearest_availability_date: its shape is C17's obligation, reused here
+    from . import c17 as _c17
+    _c17._search(ctx)
+
     o = ctx.ob('date_encoding', 'R8',
                "start = midnight(d) + 1 day * RESV(d)/CAP(d); end = last day + 1 day * RESV'(last)/CAP(last), RESV' read after the "
                "loop for the same resource/day with the balancing selector", floor=3)
